@@ -35,7 +35,7 @@ CLAIMED = {
   "DESIGN.md §3 C07"),
  "C15": ("symgo", "model_checking", TECH_A,
   LEMMA + "Each ActorRef-taking operation (Tell, Kill immediate/poison, Watch, Unwatch, Ping, Ask/Reply, PipeTo) issued across two harness systems joined by an in-memory wire runs the real findMailbox -> remoting mailbox -> EncodeEnvelopWithRemoting -> DecodeEnvelopWithRemoting -> HandleRemotingEnvelop path with symbolic message contents; same observable effect as the local run.",
-  "One deterministic delivery schedule; sockets/handshake replaced by an in-memory connection; harness codec for the user type (able to carry the nil message of a failed PipeResult, like a JSON codec); PipeTo forwarding of success, of a field-less reply, of a plain-error failure and of a timeout to a remote forwarder; no-codec configuration not run.",
+  "One deterministic delivery schedule; sockets/handshake replaced by an in-memory connection; harness codec for the user type (able to carry the nil message of a failed PipeResult, like a JSON codec); PipeTo forwarding of success, of a field-less reply, of a plain-error failure and of a timeout to a remote forwarder; no-codec configuration not run here (its totality is decided under C13, *_nocodec jobs).",
   "DESIGN.md §3 C15"),
  "C20": ("symgo", "model_checking", TECH_A,
   LEMMA + "Solver-chosen sequences of Once/Loop/Cancel/Clear/Kill/restart over 2 references x 2 actors with solver-chosen delays against a virtual clock on the real actor Scheduler / onScheduler / cleanupScheduler: exact firing counts, never before the delay, nothing after cancel/clear/death/restart, not-found for unknown references, original message value; invalid cron rejected and schedules nothing.",
@@ -66,7 +66,7 @@ CLAIMED = {
   "Size bounds as in evidence; int fields that travel as int32 assumed in range; time.Time abstracted to UnixNano.",
   "DESIGN.md §3 C12"),
  "C13": ("symgo", "model_checking", TECH_A,
-  "Every registered reader, the envelope decoder, ReadMessage, the version-vector/node-state/view readers, the primitive and reflective Reader and the handshake on every byte string of length 0..N with all bytes symbolic: every runtime panic site and every allocation size is a solver query; every truncation and single-byte corruption of valid envelopes; encoding of unsupported values returns an error (stack depth bounded); pooled readers/writers are clean.",
+  "Every registered reader, the envelope decoder, ReadMessage, the version-vector/node-state/view readers, the primitive and reflective Reader and the handshake on every byte string of length 0..N with all bytes symbolic: every runtime panic site and every allocation size is a solver query; every truncation and single-byte corruption of valid envelopes; encoding of unsupported values returns an error (stack depth bounded); pooled readers/writers are clean; envelope decoder/encoder also with NO Codec configured (found and repaired: nil-Codec method call panics, fix 0b39a69).",
   "Input length bounds per decoder in evidence; allocation budget 65536 elements; representative values for large sizes.",
   "DESIGN.md §3 C13"),
  "C14": ("symgo", "model_checking", TECH_A,
